@@ -3,7 +3,7 @@
 Confirms a seeded change (applies to /repo HEAD, demo passes without / fails with it, baseline suite still passes),
 runs ./check Cxx against it, and files everything under /verif/seeded/<Cxx>-<name>/ (meta.json gets the results)."""
 import json, os, shutil, subprocess, sys
-prop, src, name = sys.argv[1], sys.argv[2], sys.argv[3]
+prop, src, name = sys.argv[1], os.path.abspath(sys.argv[2]), sys.argv[3]
 tier = "quick"
 if "--tier" in sys.argv:
     tier = sys.argv[sys.argv.index("--tier") + 1]
@@ -48,7 +48,8 @@ try:
         dst = f"/verif/seeded/{prop}-{name}"
         os.makedirs(dst, exist_ok=True)
         for f in ("patch.diff", "demo.py"):
-            shutil.copy(os.path.join(src, f), dst)
+            if os.path.abspath(os.path.join(src, f)) != os.path.abspath(os.path.join(dst, f)):
+                shutil.copy(os.path.join(src, f), dst)
         meta = json.load(open(os.path.join(src, "meta.json")))
         meta["property"] = prop
         meta["verified_by_lead"] = {"repo_head": run(["git", "-C", "/repo", "rev-parse", "--short", "HEAD"]).stdout.strip(),
